@@ -138,6 +138,44 @@ func run(g *graph, reqs []int64, mode, k int) obs {
 			}
 			ds = h
 		}
+		if strings.HasPrefix(g.class, "osmadd/") {
+			// the library's datasource built the way users build it: (&osm.OSM{Relations: ...}).HistoryDatasource(),
+			// from one list in which the versions of a relation are NOT next to each other
+			// (relative order of the versions of one relation kept); several OSM objects added in turn
+			src := &source{g: g}
+			var per [][]*osm.Relation
+			total := 0
+			for _, n := range g.nodes {
+				rs, _ := src.RelationHistory(ctx, osm.RelationID(n.id))
+				per = append(per, rs)
+				total += len(rs)
+			}
+			irng := rand.New(rand.NewSource(int64(total)*7919 + int64(len(g.nodes))))
+			var all osm.Relations
+			for total > 0 {
+				i := irng.Intn(len(per))
+				if len(per[i]) == 0 {
+					continue
+				}
+				all = append(all, per[i][0])
+				per[i] = per[i][1:]
+				total--
+			}
+			cut := 0
+			if len(all) > 1 {
+				cut = irng.Intn(len(all))
+			}
+			h := (&osm.OSM{Relations: all[:cut]}).HistoryDatasource()
+			h2 := (&osm.OSM{Relations: all[cut:]}).HistoryDatasource()
+			// merge the second batch the way a second file would be added: through the same map
+			if h.Relations == nil {
+				h.Relations = map[osm.RelationID]osm.Relations{}
+			}
+			for id, rs := range h2.Relations {
+				h.Relations[id] = append(h.Relations[id], rs...)
+			}
+			ds = h
+		}
 		ord := annotate.NewChildFirstOrdering(ctx, ids, ds)
 		if mode == 0 {
 			for ord.Next() {
@@ -701,6 +739,8 @@ func corpus() []struct {
 		// as having a history and is emitted (reading stated in checks.d/C14.json)
 		{&graph{class: "corpus/empty-history", nodes: []node{r(1, 2, 3), {id: 2}, r(3)}}, []int64{1, 2}},
 		{&graph{class: "osmds/empty-history", nodes: []node{r(1, 2, 3), {id: 2}, r(3)}}, []int64{2, 1}},
+		{&graph{class: "osmadd/interleaved-versions", nodes: []node{{id: 1, versions: [][]member{{}, {}}}, r(2, 3), r(3)}}, []int64{1, 2, 3}},
+		{&graph{class: "osmadd/diamond-multi", nodes: []node{{id: 1, versions: [][]member{{{true, 2}}, {{true, 3}}, {{true, 4}}}}, {id: 2, versions: [][]member{{{true, 4}}, {}}}, r(3, 4), {id: 4, versions: [][]member{{}, {}, {}}}}}, []int64{1}},
 		{&graph{class: "osmds/cycle", nodes: []node{r(1, 2), r(2, 3), r(3, 1, 9)}}, []int64{3, 1}},
 		{&graph{class: "corpus/versions", nodes: []node{{id: 1, versions: [][]member{{{true, 2}}, {{true, 3}}, {{false, 2}}}}, r(2), r(3, 2)}}, []int64{1}},
 	}
@@ -724,6 +764,19 @@ func main() {
 	}
 	for i := 0; i < ngraphs && hung < 3; i++ {
 		g := genGraph(rng)
+		if i%4 == 1 {
+			// through osm.HistoryDatasource built from an interleaved list: it has neither failing
+			// lookups nor empty histories, those nodes are dropped (their ids are then unknown)
+			var keep []node
+			for _, n := range g.nodes {
+				if n.kind == 0 && len(n.versions) > 0 {
+					keep = append(keep, n)
+				}
+			}
+			if len(keep) > 0 {
+				g = &graph{nodes: keep, class: "osmadd/" + strings.TrimSuffix(g.class, "+dserror")}
+			}
+		}
 		reqs := genReqs(rng, g)
 		c := mkCase(g, reqs, 0, 0)
 		full = append(full, wr.Add(c))
